@@ -2,6 +2,7 @@
 //! `<name>.ops` (requests for the Lean model driver), `<name>.real` (the real code's responses)
 //! and `<name>.stats.json` (input distribution, oracle failures).
 mod alloc;
+mod crash;
 mod keys;
 mod out;
 mod pure;
@@ -43,10 +44,18 @@ fn main() {
         "c10frame" => pure::c10_frame(&mut rng, n, &work, &mut out),
         "c18" => pure::c18(&mut rng, n, &mut out),
         "c17" => range::c17(&mut rng, n, &work, &mut out),
-        "c01" | "c02" | "c13" => {
+        "c01" | "c02" | "c13" | "c07" | "c12" | "c18chunks" => {
             let mut s = sess::Sess::new(&work);
-            let (w, p): (&seq::Weights, &'static str) = match slice.as_str() { "c01" => (&seq::W_C01, "C01"), "c02" => (&seq::W_C02, "C02"), _ => (&seq::W_C13, "C13") };
+            let (w, p): (&seq::Weights, &'static str) = match slice.as_str() { "c01" => (&seq::W_C01, "C01"), "c07" => (&seq::W_C01, "C07"), "c12" => (&seq::W_C01, "C12"), "c18chunks" => (&seq::W_C01, "C18"), "c02" => (&seq::W_C02, "C02"), _ => (&seq::W_C13, "C13") };
             seq::histories(&mut s, &mut rng, n, w, p);
+            s.finish();
+            out = std::mem::take(&mut s.out);
+        }
+        "c03" | "c09" | "c20" | "c06" | "c08crash" => {
+            let mut s = sess::Sess::new(&work);
+            let thorough = std::env::var("VERIF_TIER").map_or(false, |t| t == "thorough");
+            let (m, p): (crash::Mode, &'static str) = match slice.as_str() { "c09" => (crash::Mode::PowerLoss, "C09"), "c20" => (crash::Mode::Kill, "C20"), "c06" => (crash::Mode::Kill, "C06"), "c08crash" => (crash::Mode::Kill, "C08"), _ => (crash::Mode::Kill, "C03") };
+            crash::crashes(&mut s, &mut rng, n, m, p, thorough);
             s.finish();
             out = std::mem::take(&mut s.out);
         }
